@@ -75,4 +75,14 @@ def c15_three_atom_end(case):
     return False
 
 
-PREDICATES = {f.__name__: f for f in (c16_newline_not_error, c14_scnr2_restore_last_char, c15_three_atom_end)}
+def c33_terminal_name_self(case):
+    """the only invalid name is the entry 'Self' of the TERMINAL_NAMES string table"""
+    ev = case.get("tv_event") or {}
+    if ev.get("why") != ["terminals_invalid"]:
+        return False
+    par = (ev.get("vec") or {}).get("par", "")
+    # the grammar has a terminal whose text is Self/self and no other keyword-cased terminal name can arise
+    return '"Self"' in par or "'Self'" in par or '"self"' in par or "'self'" in par
+
+
+PREDICATES = {f.__name__: f for f in (c33_terminal_name_self, c16_newline_not_error, c14_scnr2_restore_last_char, c15_three_atom_end)}
